@@ -213,7 +213,10 @@ def judge_program(asm, acc, m, tup, kw, alias=False):
                 ops[k] = 'NV%d' % k
         # ... and not at address 0: a name in a non pc-relative position means its value wherever the instruction sits
         skip = 4 * ((sum(a for a in tup if isinstance(a, int)) + len(m)) % 4)
-        pre += 'nop\n' * (skip // 4)
+        # ... behind other kinds of instructions (atomics carry keyword operands, fence / csr have formats of their own)
+        PRE = ['nop', 'lr.w x1, x2', 'amoadd.w x5, x6, x7 1 1', 'fence', 'csrrw x1, x2, 3', 'sc.w x1, x2, x3', 'ecall', 'lui x1, 5', 'amoswap.w x8, x9, x10']
+        for j in range(skip // 4):
+            pre += PRE[(j + len(m) + skip) % len(PRE)] + '\n'
         if kw:
             ops += [str(kw['aq']), str(kw['rl'])]
         line = m + (' ' + ', '.join(ops) if ops else '')
